@@ -154,6 +154,7 @@ func (w *c01World) send(body []byte) string {
 }
 
 func (w *c01World) line(c *Ctx, in string) {
+	c.Pending(in)
 	parts := strings.Fields(in)
 	switch parts[0] {
 	case "reset": // reset <service 0|1>
